@@ -1,7 +1,5 @@
 import OZ.DrvUtil
-import OZ.Model.Merkle
-import OZ.Model.Sha256
-import OZ.Model.Keccak
+import OZ.Model.MerkleMon
 /-
 Driver for C17. Node values are 32-byte strings in lower-case hex; `proof` is a comma
 separated list ("-" = empty).
@@ -26,15 +24,15 @@ The model side uses OZ.Merkle with SHA-256 / Keccak-256 implemented in Lean
 (OZ/Model/Sha256.lean, Keccak.lean; every `hash` / `pair` op validates them against the
 host's and against the harness' sha2 / sha3). The monitor does not call the model's verifier
 or distributor: it re-folds with its own code (big-endian number comparison for the sorted
-pair, bit tests for the positional form) and keeps its own ghost {root, claimed, balances}.
+pair, bit tests for the positional form) and keeps its own ghost {root, claimed, far claims,
+balances}. The monitor's checks are in OZ/Model/MerkleMon.lean (proved sound on every model trace in
+OZ/Props/C17Mon.lean); this file only parses the lines for it.
 -/
 namespace OZ.Drv.C17
-open OZ.Drv OZ.B64 OZ.Merkle
+open OZ.Drv OZ.B64 OZ.Merkle OZ.Merkle.Mon
 
-abbrev Node := List UInt8
-
-def hashOf (alg : String) : Node → Node :=
-  if alg = "kec" then OZ.Keccak.keccak256 else OZ.Sha256.sha256
+/- `Node`, `hashOf`, `claimedList` live in OZ/Model/MerkleMon.lean (moved there unchanged so that the
+soundness theorems can speak about them) -/
 
 def opsOf (alg : String) : Ops Node := bytesOps (hashOf alg)
 
@@ -60,9 +58,6 @@ structure St where
   pool : Int := 0
   bal : List Int := []
   now : Nat := 0
-
-def claimedList (d : Dist Node) (w : Nat) : List Nat :=
-  ((List.range w) ++ [4294967294, 4294967295]).filter (fun i => d.claimed i)
 
 def showDist (ok : Bool) (d : Dist Node) (w : Nat) : String :=
   let r := match d.root with | some r => toHex r | none => "none"
@@ -144,55 +139,49 @@ def stepOp (s : St) (line : String) : St × String :=
     | _, _, _, _, _ => (s, "bad-op")
   | _ => (s, "bad-op")
 
-/-! ### monitor: own fold, own ghost state -/
+/-! ### monitor: parsing only; the checks are in OZ/Model/MerkleMon.lean (own fold, own ghost state)
 
-/-- a 32-byte string as a big-endian number -/
-def beNat (b : Node) : Nat := b.foldl (fun acc x => acc * 256 + x.toNat) 0
+Proved sound in OZ/Props/C17Mon.lean (`verifier_monitor_accepts_every_model_answer`,
+`dist_monitor_accepts_every_model_trace`, `airdrop_monitor_accepts_every_model_trace`).
+NOT covered by those theorems (string level, below):
+  * `hash` / `pair` lines: the library's answer must be the `want` the harness computed with the
+    sha2 / sha3 crates (no model conclusion involved);
+  * lines that do not parse, and lines of a `dist` / `airdrop` sequence that are none of
+    advance / setroot / claim resp. advance look=0 / aclaim (the harness writes none). -/
 
-def monPairSorted (H : Node → Node) (a b : Node) : Node :=
-  if beNat a ≤ beNat b then H (a ++ b) else H (b ++ a)
+def parseTag (s : String) : Tag :=
+  if s = "honest" then .honest else if s.startsWith "c:" then .corrupt (s.drop 2).toString else .other
 
-def monFoldSorted (H : Node → Node) (leaf : Node) (proof : List Node) : Node :=
-  proof.foldl (monPairSorted H) leaf
+def expTag (ws : List String) : Tag := parseTag ((kv? ws "exp").getD "")
 
-/-- positional: at level k the node is a right child iff bit k of the index is set -/
-def monFoldIndexed (H : Node → Node) (leaf : Node) (index : Nat) (proof : List Node) : Node :=
-  ((List.range proof.length).zip proof).foldl
-    (fun acc (k, sib) => if index.testBit k then H (sib ++ acc) else H (acc ++ sib)) leaf
+def parseAns (s : String) : Option Ans :=
+  if s = "ok true" then some .accept else if s = "ok false" then some .reject
+  else if s = "err" then some .fail else none
 
-/-- `some true` / `some false`: the verifier must answer so; `none`: it must fail -/
-def monVerify (H : Node → Node) (indexed : Bool) (root leaf : Node) (index : Nat) (proof : List Node) : Option Bool :=
-  if indexed then
-    if proof.length ≥ 32 ∨ index ≥ 2 ^ proof.length then none
-    else some (monFoldIndexed H leaf index proof == root)
-  else some (monFoldSorted H leaf proof == root)
-
-structure Mon where
-  kind : String := ""
-  alg : String := "sha"
-  root : Option Node := none
-  claimed : List Nat := []
-  pool : Int := 0
-  bal : List Int := []
+def parseVOp (ws : List String) : Option VOp :=
+  match ws with
+  | "verify" :: rest => do
+    let root ← hexArg rest "root"
+    let leaf ← hexArg rest "leaf"
+    let proof ← proofArg rest
+    pure { indexed := false, root, leaf, index := 0, proof, tag := expTag rest }
+  | "verifyidx" :: rest => do
+    let root ← hexArg rest "root"
+    let leaf ← hexArg rest "leaf"
+    let proof ← proofArg rest
+    let index ← kvNat? rest "index"
+    pure { indexed := true, root, leaf, index, proof, tag := expTag rest }
+  | _ => none
 
 def initMon (label : String) : Mon :=
   let ws := words label
   match ws with
-  | "dist" :: rest => { kind := "dist", alg := (kv? rest "alg").getD "sha" }
+  | "dist" :: rest => { kind := "dist", alg := (kv? rest "alg").getD "sha", w := (kvNat? rest "w").getD 0 }
   | "airdrop" :: rest =>
-    { kind := "airdrop", alg := (kv? rest "alg").getD "sha", root := hexArg rest "root",
+    { kind := "airdrop", alg := (kv? rest "alg").getD "sha", w := (kvNat? rest "w").getD 0,
+      root := hexArg rest "root",
       pool := (kvInt? rest "pool").getD 0, bal := List.replicate ((kvNat? rest "nrcv").getD 0) 0 }
   | _ => {}
-
-def expTag (ws : List String) : String := (kv? ws "exp").getD ""
-
-/-- the semantic expectation attached to an op by the harness: an honest (leaf, proof) must be
-accepted; a corrupted one must be rejected (false or failure) -/
-def tagCheck (what : String) (tag : String) (accepted : Bool) : Option String :=
-  if tag = "honest" ∧ ¬ accepted then some s!"site={what}.reject.honest an honest (leaf, proof) was rejected"
-  else if tag.startsWith "c:" ∧ accepted then
-    some s!"site={what}.accept.{(tag.drop 2).toString} a corrupted (leaf, proof, index, root) was accepted"
-  else none
 
 def monStateless (opl obs : String) : Option String :=
   let ws := words opl
@@ -207,118 +196,70 @@ def monStateless (opl obs : String) : Option String :=
     match kv? rest "want" with
     | some want => if obs = "ok " ++ want then none else some s!"site=hashable.pair library pair hash {obs} but independent computation says {want}"
     | none => some s!"site=c17.parse {opl}"
-  | "verify" :: rest =>
-    let alg := (kv? rest "alg").getD "sha"
-    match hexArg rest "root", hexArg rest "leaf", proofArg rest with
-    | some root, some leaf, some proof =>
-      let want := monVerify (hashOf alg) false root leaf 0 proof
-      let wantS := match want with | some true => "ok true" | some false => "ok false" | none => "err"
-      if obs ≠ wantS then some s!"site=merkle.verify.fold verifier says {obs} but the independent fold says {wantS}"
-      else tagCheck "merkle.verify" (expTag rest) (obs = "ok true")
-    | _, _, _ => some s!"site=c17.parse {opl}"
-  | "verifyidx" :: rest =>
-    let alg := (kv? rest "alg").getD "sha"
-    match hexArg rest "root", hexArg rest "leaf", proofArg rest, kvNat? rest "index" with
-    | some root, some leaf, some proof, some index =>
-      let want := monVerify (hashOf alg) true root leaf index proof
-      let wantS := match want with | some true => "ok true" | some false => "ok false" | none => "err"
-      if obs ≠ wantS then some s!"site=merkle.verify_with_index.fold verifier says {obs} but the independent fold says {wantS}"
-      else tagCheck "merkle.verify_with_index" (expTag rest) (obs = "ok true")
-    | _, _, _, _ => some s!"site=c17.parse {opl}"
+  | "verify" :: rest | "verifyidx" :: rest =>
+    match parseVOp ws with
+    | some op => verdictVerify (hashOf ((kv? rest "alg").getD "sha")) op { ans := parseAns obs, raw := obs }
+    | none => some s!"site=c17.parse {opl}"
   | _ => none
 
 def parseClaimed (ws : List String) : List Nat := natList ((kv? ws "claimed").getD "-")
 
-/-- flags that are newly set although no accepted claim for exactly that index produced them -/
-def spurious (old new : List Nat) (accepted : Option Nat) : List Nat :=
-  new.filter (fun j => ¬ old.contains j ∧ accepted ≠ some j)
-
 def isBlindAdvance (ws : List String) : Bool := ws.head? = some "advance" ∧ kv? ws "look" ≠ some "1"
+
+def parseDLine (ws : List String) : Option DLine :=
+  if isBlindAdvance ws then some .blind else
+  match ws with
+  | "advance" :: _ => some .look
+  | "setroot" :: rest => (hexArg rest "root").map DLine.setRoot
+  | "claim" :: rest => do
+    let leaf ← hexArg rest "leaf"
+    let proof ← proofArg rest
+    let index ← kvNat? rest "index"
+    pure (.claim (kv? rest "mode" = some "indexed") leaf index proof (expTag rest))
+  | _ => none
+
+def parseDObs (ows : List String) : DObs :=
+  { ok := ows.head? = some "ok",
+    root := match kv? ows "root" with | some "none" => none | some h => ofHex h | none => none,
+    claimed := parseClaimed ows }
 
 def monDist (m : Mon) (opl obs : String) : Mon × Option String :=
   let ws := words opl
-  let ows := words obs
-  let ok := ows.head? = some "ok"
-  if isBlindAdvance ws then (m, if ok then none else some "site=c17.advance advancing the ledger failed") else
-  let oroot : Option Node := match kv? ows "root" with | some "none" => none | some h => ofHex h | none => none
-  let oclaimed := parseClaimed ows
-  let m' : Mon := { m with root := oroot, claimed := oclaimed }
-  -- claimed forever: nothing ever disappears
-  if m.claimed.any (fun i => ¬ oclaimed.contains i) then
-    (m', some "site=distributor.unmarked an index that was claimed is not claimed any more")
-  else
+  let o := parseDObs (words obs)
+  match parseDLine ws with
+  | some op => distCore (hashOf m.alg) m op o
+  | none =>
+    let m' : Mon := { m with root := o.root, claimed := o.claimed }
+    if unmarked m.claimed o.claimed then (m', some unmarkedMsg)
+    else if ws.head? = some "claim" ∨ ws.head? = some "setroot" then (m', some s!"site=c17.parse {opl}")
+    else (m', none)
+
+def parseALine (ws : List String) : Option ALine :=
+  if isBlindAdvance ws then some .blind else
   match ws with
-  | "advance" :: _ =>
-    if oclaimed ≠ m.claimed then
-      (m', some s!"site=distributor.spurious_claimed flags {spurious m.claimed oclaimed none} appeared while time passed")
-    else if oroot ≠ m.root then (m', some "site=distributor.root_lost the root changed while time passed")
-    else (m', none)
-  | "setroot" :: rest =>
-    let r := hexArg rest "root"
-    if ¬ ok then (m', some "site=distributor.set_root set_root failed")
-    else if oroot ≠ r then (m', some "site=distributor.set_root root not stored")
-    else if oclaimed ≠ m.claimed then (m', some "site=distributor.root_change_lost_claims a root change altered the claimed set")
-    else (m', none)
-  | "claim" :: rest =>
-    match hexArg rest "leaf", proofArg rest, kvNat? rest "index" with
-    | some leaf, some proof, some index =>
-      let indexed := kv? rest "mode" = some "indexed"
-      let valid : Bool := match m.root with
-        | none => false
-        | some root => monVerify (hashOf m.alg) indexed root leaf index proof == some true
-      let was := m.claimed.contains index
-      let new := oclaimed.filter (fun i => ¬ m.claimed.contains i)
-      let sp := spurious m.claimed oclaimed (if ok then some index else none)
-      let f : Option String :=
-        if sp ≠ [] then some s!"site=distributor.spurious_claimed flags {sp} are set although no claim for them was accepted (op: claim index {index}, {if ok then "accepted" else "refused"})"
-        else if ok ∧ was then some s!"site=distributor.double_claim index {index} was claimed again"
-        else if ok ∧ (expTag rest).startsWith "c:" then some s!"site=distributor.accept.{((expTag rest).drop 2).toString} a corrupted claim was accepted"
-        else if ok ∧ ¬ valid then some s!"site=distributor.claimed_without_valid_proof claim for index {index} accepted although the proof does not verify against the current root"
-        else if ok ∧ new ≠ [index] then some s!"site=distributor.marks accepted claim for {index} marked {new}"
-        else if ok ∧ oroot ≠ m.root then some "site=distributor.claim_changed_root"
-        else if ¬ ok ∧ (new ≠ [] ∨ oroot ≠ m.root) then some s!"site=distributor.failed_claim_marked a failed claim changed the state (newly claimed {new})"
-        else if ¬ ok ∧ valid ∧ ¬ was then some s!"site=distributor.reject.honest a valid claim for the unclaimed index {index} was refused"
-        else none
-      (m', f)
-    | _, _, _ => (m', some s!"site=c17.parse {opl}")
-  | _ => (m', none)
+  | "aclaim" :: rest => do
+    let leaf ← hexArg rest "leaf"
+    let proof ← proofArg rest
+    let index ← kvNat? rest "index"
+    let rcv ← kvNat? rest "rcv"
+    let amount ← kvInt? rest "amount"
+    pure (.claim leaf index rcv amount proof (expTag rest))
+  | _ => none
+
+def parseAObs (ows : List String) : AObs :=
+  { ok := ows.head? = some "ok", claimed := parseClaimed ows,
+    pool := (kvInt? ows "pool").getD 0, bal := intList ((kv? ows "bal").getD "-") }
 
 def monAir (m : Mon) (opl obs : String) : Mon × Option String :=
   let ws := words opl
-  let ows := words obs
-  let ok := ows.head? = some "ok"
-  if isBlindAdvance ws then (m, if ok then none else some "site=c17.advance advancing the ledger failed") else
-  let oclaimed := parseClaimed ows
-  let opool := (kvInt? ows "pool").getD 0
-  let obal := intList ((kv? ows "bal").getD "-")
-  let m' : Mon := { m with claimed := oclaimed, pool := opool, bal := obal }
-  if m.claimed.any (fun i => ¬ oclaimed.contains i) then
-    (m', some "site=distributor.unmarked an index that was claimed is not claimed any more")
-  else
-  match ws with
-  | "aclaim" :: rest =>
-    match hexArg rest "leaf", proofArg rest, kvNat? rest "index", kvNat? rest "rcv", kvInt? rest "amount" with
-    | some leaf, some proof, some index, some rcv, some amount =>
-      let valid : Bool := match m.root with
-        | none => false
-        | some root => monVerify (hashOf m.alg) false root leaf index proof == some true
-      let was := m.claimed.contains index
-      let new := oclaimed.filter (fun i => ¬ m.claimed.contains i)
-      let paid : List Int := (List.range m.bal.length).map (fun j => m.bal.getD j 0 + (if j = rcv then amount else 0))
-      let sp := spurious m.claimed oclaimed (if ok then some index else none)
-      let f : Option String :=
-        if sp ≠ [] then some s!"site=distributor.spurious_claimed flags {sp} are set although no claim for them was accepted (airdrop claim index {index})"
-        else if ok ∧ was then some s!"site=airdrop.double_claim index {index} was paid again"
-        else if ok ∧ (expTag rest).startsWith "c:" then some s!"site=airdrop.accept.{((expTag rest).drop 2).toString} a corrupted claim was paid"
-        else if ok ∧ ¬ valid then some s!"site=airdrop.claimed_without_valid_proof claim for index {index} paid although the proof does not verify"
-        else if ok ∧ new ≠ [index] then some s!"site=airdrop.marks accepted claim for {index} marked {new}"
-        else if ok ∧ (opool ≠ m.pool - amount ∨ obal ≠ paid) then some s!"site=airdrop.payment accepted claim did not move exactly {amount} to receiver {rcv}"
-        else if ¬ ok ∧ (new ≠ [] ∨ opool ≠ m.pool ∨ obal ≠ m.bal) then some "site=airdrop.failed_claim_changed_state a failed claim changed flags or balances"
-        else if ¬ ok ∧ valid ∧ ¬ was ∧ 0 ≤ amount ∧ amount ≤ m.pool then some s!"site=airdrop.reject.honest a valid, funded claim for the unclaimed index {index} was refused"
-        else none
-      (m', f)
-    | _, _, _, _, _ => (m', some s!"site=c17.parse {opl}")
-  | _ => (m', none)
+  let o := parseAObs (words obs)
+  match parseALine ws with
+  | some op => airCore (hashOf m.alg) m op o
+  | none =>
+    let m' : Mon := { m with claimed := o.claimed, pool := o.pool, bal := o.bal }
+    if unmarked m.claimed o.claimed then (m', some unmarkedMsg)
+    else if ws.head? = some "aclaim" then (m', some s!"site=c17.parse {opl}")
+    else (m', none)
 
 def machine : Machine where
   σ := St
